@@ -605,7 +605,8 @@ func (r *Run) reporter(c *ClientSpec) {
 				st.doneAt = r.sim.Step()
 			}
 			cancel()
-			return
+			// (a source may go on reporting after its Done: while another
+			// watcher keeps the monitor alive those reports are stacked as usual)
 		}
 	}
 }
